@@ -95,4 +95,6 @@ class Contract:
         self.isinstance_hook = None
         self.consume_hook = None
         self.next_hook = None
+        self.nested_models = {}
+        self.slice_hook = None
         REGISTRY.append(self)
